@@ -10,6 +10,7 @@ import Driver.C16
 import Driver.C13
 import Driver.C10
 import Driver.C07
+import Driver.C18
 
 def main (args : List String) : IO UInt32 := do
   match args with
@@ -25,4 +26,5 @@ def main (args : List String) : IO UInt32 := do
   | ["c13"] => Redproxy.Driver.C13.main; return 0
   | ["c10"] => Redproxy.Driver.C10.main; return 0
   | ["c07"] => Redproxy.Driver.C07.main; return 0
+  | ["c18"] => Redproxy.Driver.C18.main; return 0
   | _ => IO.eprintln "usage: rpmodel <mode>  (cases on stdin, one output line per case on stdout)"; return 2
